@@ -479,6 +479,9 @@ def seq_len(e, env, bits=64):
             return seq_len(e[2][0], env, bits)
         if nm == "from_elem" and len(e[2]) == 2:
             return evaluate(e[2][1], env, bits)
+        if nm == "next" and e[2] and e[2][0][0] == "call" and e[2][0][1].rsplit("::", 1)[-1] in ("chunks_exact", "chunks_exact_mut") and len(e[2][0][2]) == 2:
+            # an item of `chunks_exact(n)` has exactly n elements
+            return evaluate(e[2][0][2][1], env, bits)
     raise Uneval(key)
 
 
